@@ -316,6 +316,20 @@ func main() {
 		l.Raw("def sharedState : List String := " + gen.LeanStrList(ss) + "\n")
 		l.Raw("/-- the recognised read-only ones, for the record -/\n")
 		l.Raw("def sharedReadOnly : List String := " + gen.LeanStrList(ro) + "\n")
+		// fingerprint of the Abort paths: the reply is computed from dialResult.Code and nothing else
+		for _, fp := range []struct{ pkg *gen.Pkg; recv, want string }{
+			{socks, "serverPendingConn", "{ return replyWithStatus(c.inner, c.buf, ReplyFromDialResultCode(dialResult.Code)) }"},
+			{hp, "serverConnectPendingConn", "{ if err := send502(c.inner); err != nil { return fmt.Errorf(\"failed to send 502 Bad Gateway response: %w\", err) } return nil }"},
+		} {
+			fd, err := fp.pkg.Func(fp.recv, "Abort")
+			if err != nil {
+				return err
+			}
+			if got := fp.pkg.Src(fd.Body); got != fp.want {
+				return fmt.Errorf("%s.Abort: unrecognised body (the reply must be a function of dialResult.Code only): %s", fp.recv, got)
+			}
+		}
+		l.BoolDef("abortUsesCode", true, "socks5 serverPendingConn.Abort = replyWithStatus(c.inner, c.buf, ReplyFromDialResultCode(dialResult.Code)); httpproxy serverConnectPendingConn.Abort(_) = send502")
 		l.BoolDef("connectKeepsReadAhead", keep, "httpproxy.ServerHandle, CONNECT branch: `if rwbr.Buffered() > 0 { rw = newReadBufferedNetioConn(rw, rwbr) }` present before the pending conn is built")
 		return nil
 	})
